@@ -213,6 +213,7 @@ def _run_case(case, ctx, kinds, nt_flags):
         rec = _Rec(v)
         store = []  # ids in insertion order
         st_filter, st_marked_only, st_order, st_rev = 0, False, "time", False
+        dirty = set()
 
         def expected():
             return [i for i in store if _match(st_filter, byid[i][1]) and (byid[i][1]["marked"] or not st_marked_only)]
@@ -236,10 +237,16 @@ def _run_case(case, ctx, kinds, nt_flags):
                 elif kind == "mut":
                     f, m = pool[op[1]]
                     what, val = op[2], op[3]
+                    oldkeys = {o: _fresh_key(o, f, m) for o in ORDERS}
                     keych = _mutate(f, m, what, val, tutils)
                     v.update([f])
                     if f.id in store:
                         updated = f.id
+                        for o in ORDERS:
+                            # keys that changed while the flow was hidden or while another order was active: the only
+                            # situations the known stale-cache finding is about
+                            if _fresh_key(o, f, m) != oldkeys[o] and (f.id not in before or o != st_order):
+                                dirty.add((f.id, o))
                         if keych and st_order != "time":
                             nt_flags.add("key-change-under-order")
                         if st_marked_only:
@@ -346,7 +353,8 @@ def _run_case(case, ctx, kinds, nt_flags):
             keys = [_fresh_key(st_order, *byid[i]) for i in ids]
             ok = all((a >= b) if st_rev else (a <= b) for a, b in zip(keys, keys[1:]))
             if not ok:
-                stale = any(v.settings[byid[i][0]].get(v._order_key_name()) != v.order_key.generate(byid[i][0]) for i in ids)
+                stale = any(v.settings[byid[i][0]].get(v._order_key_name()) != v.order_key.generate(byid[i][0])
+                            and (i, st_order) in dirty for i in ids)
                 ctx.fail("order:%s" % ("stale-cached-key" if stale else "not-sorted"), "%s keys=%r" % (where, keys))
                 return
             # sequence protocol
